@@ -46,6 +46,7 @@ Definition law_sync_pods (sp : spec) (pgv : bool) (before after : list pod) : bo
                       | None => false end) before.
 
 Definition is_sync_path (sp : spec) (b : obs) (r : req) : bool :=
+  negb (snd (apply_policies_d sp (o_vst b) r)) &&
   match fst (exec (st_phase (o_vst b)) (apply_policies sp (o_vst b) r)) with KSync => true | _ => false end.
 
 Definition law_sync_step (sp : spec) (r : req) (fresh pgv : bool) (b a : obs) : bool :=
@@ -64,11 +65,15 @@ Definition law_crash (crashed clean : list pod) : bool := pods_eqb crashed clean
 Record markers := mkM {
   m_task : Z; m_idx : Z; m_version : Z; m_retry : Z;          (* parsed from the annotations *)
   m_lbl_task : Z; m_lbl_idx : Z;                              (* parsed from the labels *)
-  m_owner : bool; m_group : bool; m_jobname : bool; m_queue : bool; m_jobid : bool }.
-Definition law_markers (t : positive) (i ver retry : Z) (m : markers) : bool :=
+  m_owner : bool; m_group : bool; m_jobname : bool; m_queue : bool; m_jobid : bool;
+  m_user_lbl : Z; m_user_ann : Z;                             (* the template's own label / annotation (0: absent) *)
+  m_shape : bool }.                                           (* pod name, pod-template annotation, containers, scheduler name *)
+(* every created pod carries the fields of ITS OWN (task, index) and its template's own labels *)
+Definition law_markers (t : positive) (i ver retry cpu mem : Z) (m : markers) : bool :=
   Z.eqb (m_task m) (Zpos t) && Z.eqb (m_idx m) i && Z.eqb (m_version m) ver && Z.eqb (m_retry m) retry &&
   Z.eqb (m_lbl_task m) (Zpos t) && Z.eqb (m_lbl_idx m) i &&
-  m_owner m && m_group m && m_jobname m && m_queue m && m_jobid m.
+  m_owner m && m_group m && m_jobname m && m_queue m && m_jobid m &&
+  Z.eqb (m_user_lbl m) (Z.max 0 cpu) && Z.eqb (m_user_ann m) (Z.max 0 mem) && m_shape m.
 
 (* the PodGroup mirrors the spec *)
 Definition res_eqb (a b : res3) : bool :=
@@ -129,3 +134,21 @@ Definition law_pg_fault (failed : bool) (b a : obs) (gb ga : option podgroup) : 
 Definition law_pg_call (sp : spec) (xs : list task_extra) (jp : Z) (lister_fresh err : bool) (gb ga : option podgroup) : bool :=
   (if lister_fresh && negb err then match ga with Some g => law_pg sp xs jp true g | None => false end else true) &&
   implb err (pg_fields_eqb gb ga).
+
+(* ---------- the pods of one task built in one pass ---------- *)
+Definition pf_eqb (a b : pod_fields) : bool :=
+  Pos.eqb (pf_task a) (pf_task b) && Z.eqb (pf_idx a) (pf_idx b) && Pos.eqb (pf_lbl_task a) (pf_lbl_task b) &&
+  Z.eqb (pf_lbl_idx a) (pf_lbl_idx b) && Z.eqb (pf_version a) (pf_version b) && Z.eqb (pf_retry a) (pf_retry b) &&
+  Z.eqb (pf_user_lbl a) (pf_user_lbl b) && Z.eqb (pf_user_ann a) (pf_user_ann b).
+
+(* every created pod carries the fields of ITS OWN (task, index): the k-th pod built is the one for the k-th index *)
+Fixpoint law_created_pods (ver retry : Z) (t : task) (x : task_extra) (idxs : list Z) (got : list pod_fields) : bool :=
+  match idxs, got with
+  | [], [] => true
+  | i :: idxs', p :: got' =>
+      Pos.eqb (pf_task p) (t_name t) && Z.eqb (pf_idx p) i && Pos.eqb (pf_lbl_task p) (t_name t) && Z.eqb (pf_lbl_idx p) i &&
+      Z.eqb (pf_version p) ver && Z.eqb (pf_retry p) retry &&
+      Z.eqb (pf_user_lbl p) (Z.max 0 (x_cpu x)) && Z.eqb (pf_user_ann p) (Z.max 0 (x_mem x)) &&
+      law_created_pods ver retry t x idxs' got'
+  | _, _ => false
+  end.
